@@ -1897,8 +1897,10 @@ class DocutilsRenderer(RendererProtocol):
         self.document.sub_references = getattr(self.document, "sub_references", set())
         cyclic = references.intersection(self.document.sub_references)
         if cyclic:
+            # sorted, as the order of a set differs from process to process
+            names = ", ".join(repr(name) for name in sorted(cyclic))
             self.create_warning(
-                f"circular substitution reference: {cyclic}",
+                f"circular substitution reference: {{{names}}}",
                 MystWarnings.SUBSTITUTION,
                 line=position,
                 append_to=self.current_node,
